@@ -10,6 +10,8 @@ TRUST = ('Trusted: TLC; the simulated transport, block exchange and cache of har
          '(Append/Join treated as atomic steps); the verif hooks of /repo. ')
 
 CLAIMS = {
+    'C19': ('tla-status', 'spec/Status.tla (the status arithmetic driven by its real trigger flows) model-checked: Monotone, RestOK; flows realised on a real store with gated replicator tasks; every individual SetMax/SetProgress recorded by a hook under its lock and checked; values compared with the specification after every settled step; reload from disk.',
+            'Bounds: <=4-6 local writes interleaved with a remote chain of 4-6 entries.', '6 C19'),
     'C01': ('tla-core', 'spec/Core.tla invariant Convergence model-checked exhaustively on a small configuration; TLC-simulated behaviours (arbitrary stale/duplicate head sets, restarts, final all-to-all sync) replayed on 3 real replicas of each store type with pairwise comparison of replicas holding equal entry sets; recorded implementation traces validated against spec/CoreTrace.tla.',
             'Bounds: 3 replicas, 2 keys x 2 values, <=3 entries exhaustive, <=8 entries simulated.', '6 C01'),
     'C05': ('tla-writepath', 'spec/WritePath.tla (writers, replication batches, Crash enabled in every state, Recover) model-checked: Durable, NoPhantom; every forced behaviour\'s recorded effect log is cut at every prefix, a fresh instance is started on exactly that durable state and loaded, and the recovered log is compared with the acknowledgements issued before the cut; clean close/reopen with identity and post-restart write.',
@@ -20,6 +22,10 @@ CLAIMS = {
             'Bounds as C01.', '6 C07'),
     'C08': ('tla-core', 'spec/Core.tla action properties AppendOnly and StableOrder plus invariant OwnOrder model-checked; real event-log listings compared with the specification order after every merge step and checked for removals/reorderings.',
             'Bounds as C01.', '6 C08'),
+    'C10': ('tla-replicator', 'spec/Replicator.tla with refused entries (a non-writer\'s head; an ancestor smuggled in by a valid-looking head) model-checked: NoWedge at rest; TLC behaviours forced on a real store against real hostile entries built with a second keystore, followed by honest re-announcement.',
+            'Bounds: 5 hashes, 3 requests mixing valid and refused heads at different positions, concurrency 1-2.', '6 C10'),
+    'C11': ('tla-replicator', 'spec/Replicator.tla (requests, workers gated before the semaphore / before and after the fetch, Cancel at every step) model-checked for NoWedge/NoHang and bookkeeping invariants; TLC behaviours including the counterexample of the pinned variant forced on a real replicator; then run to rest and the final request issued again.',
+            'Bounds: chain with refs plus a fork (4 hashes), 3 requests, <=2 cancels, concurrency 1-2.', '6 C11'),
     'C16': ('tla-emitter', 'spec/Emitter.tla (legacy channel API: two goroutines, overflow queue, channel of capacity 16) model-checked for Ordered/Lossless and liveness; TLC behaviours, including the counterexample of the unrepaired variant, forced on the real handleSubscriber goroutines with gates; store events observed at emission time through two unbuffered bus subscriptions (state must already reflect the announced entries) and by a slow subscriber (same sequence, once each).',
             'Bounds: 20 events, capacity 16; <=3 writers and a 3-entry remote chain for store events.', '6 C16'),
     'C17': ('tla-writepath', 'spec/WritePath.tla model-checked for 3 writers with crash at every state; interleavings of 2..8 concurrent AddOperation calls at append | persist | index | emit | return forced on a real store with gates (including TLC\'s counterexample of the unserialised variant), then close/reopen/load.',
